@@ -6,8 +6,8 @@ CONSTANTS
   MaxEv = 2
   MaxRcpt = 1
   CodecStatuses = {"SUCCESS", "CREATED", "ERROR", "RECREATED"}
-  CumLens = {0}
-  NameChars = {1, 2}
+  CumLens = {0, 1}
+  NameChars = {0, 1}
   MaxName = 3
   Containers <- BigContainers
 VIEW view
